@@ -163,3 +163,18 @@ claim('C06', 'other',
       _TB + '; CrossHair 0.0.110; vf/oscref.py is the reference reader.',
       'CrossHair symbolic execution of the real codecs (confirmations) + SMT validity on the clump loop; symbolic-str '
       'conditions bug-hunting only', 'DESIGN.md 3/C06')
+
+claim('C18', 'model_checking',
+      '(a) matcher: for every pattern skeleton "/" + up to 2 (quick) / 3 tokens over literals, ?, *, sets, ranges, '
+      'negated sets and alternatives, the regex the real matcher passes to `re` (rewrite table executed, entry point '
+      'observed) is converted to a z3 regular expression and z3 decides language equality with the OSC 1.0 meaning for '
+      'printable-ASCII keys of ANY length; (b) all dispatch histories of 5 (quick) / 6 operations over create / enable / '
+      'disable / one_shot / free / replace function / CmdPeriod / message with a symbolic int argument, against a '
+      'reference dispatcher: exactly the enabled matching responders fire, once, in registration order per path, with '
+      'message, time, sender, port; (c) one iteration of the real bundle-element loop from an arbitrary position with an '
+      'arbitrary int32 size: z3 proves the position strictly increases or the loop leaves (models replayed as real '
+      'datagrams under a watchdog); (d) SystemAction / NotificationCenter histories vs an ordered list; plus CrossHair '
+      'bug hunting: no datagram of <= 20 bytes raises into the receiver.',
+      _TB + '; the regex->z3 converter and the OSC 1.0 reading stated in the evidence.',
+      'SMT regular-language equivalence + decision-tree model checking of the real dispatchers + SMT ranking obligation',
+      'DESIGN.md 3/C18')
